@@ -345,10 +345,58 @@ from cmptab import rule_cmptab, rule_slot  # noqa: E402
 
 PROPERTIES["C09"]["rules"] += [("SLOT", lambda ctx: rule_slot(ctx.lib))]
 PROPERTIES["C09"]["explanation"] += " (SLOT) The slot operands of GetLocal/GetUpvalue come from a reverse search over the scope vector, so every name refers to its innermost binding."
+PROPERTIES["C01"]["rules"] += [("SLOT", lambda ctx: rule_slot(ctx.lib))]
+PROPERTIES["C01"]["explanation"] += " (SLOT) Compiled code resolves a re-bound name innermost-first, like the type checker does, so the value read has the type that was checked."
 PROPERTIES["C16"]["rules"] += [("CMPTAB", lambda ctx: rule_cmptab(ctx.lib))]
 PROPERTIES["C16"]["explanation"] += " (CMPTAB) The comparator that canonicalises dimension types (a table over pairs of DTypeFactor variants) is antisymmetric and transitive, so equal factors are brought together and the canonical form of a signature — the basis of comparing an annotation with the inferred type — is unique."
 PROPERTIES["C02"]["rules"] += [("CMPTAB", lambda ctx: rule_cmptab(ctx.lib))]
 PROPERTIES["C02"]["explanation"] += " (CMPTAB) dimension-type canonicalisation uses an antisymmetric, transitive variant comparator (necessary for `requires two dimensions to be equal` to be decided on canonical forms)."
+
+from cast import rule_cast  # noqa: E402
+from expar import rule_expar  # noqa: E402
+from prov import rule_prov_relabel  # noqa: E402
+
+PROPERTIES["C05"]["rules"] += [("PROV.relabel", lambda ctx: rule_prov_relabel(ctx.lib))]
+PROPERTIES["C05"]["explanation"] += " (PROV.relabel) Inside full_simplify* a unit changes only through Quantity::convert_to or by scaling the value with the conversion factor; no Quantity is built from an unchanged value with a different unit."
+
+_A = "each element of this kind also calls Vm::add_constant in the same compile step, whose assert on constants.len() fires first (see CAST:add_constant:len(constants)->u16)"
+CAST_DISPOSITIONS = {
+    # key: ("bounded", argument) | ("witness", how to reproduce)
+    "compile_expression:Factorial:expr->u16": ("witness", "`3` followed by 65536 `!` — order wraps to 0, math::factorial panics `assertion failed: order >= 1` (findings/cast_witnesses.py factorial)"),
+    "compile_expression:BuildList:len(elements)->u16": ("witness", "`let x = 1` then `len([x, x, … 65536 times])` prints 0 (findings/cast_witnesses.py buildlist)"),
+    "compile_expression:GetUpvalue:index_in(name)->u16": ("witness", "`let a0 = 1`, `let a1 = 2`, `let a2 = a1` … `let a65536 = a65535`, then `a65536` prints 1 instead of 2 (findings/cast_witnesses.py upvalue; ~9 min)"),
+    "current_offset:len(current_chunk_index)->u16": ("witness", "`let x = 5`, 16400 lines `x`, then `if true then 111 else 222`: the jump offset wraps, the VM panics with index out of bounds (findings/cast_witnesses.py offset)"),
+    "add_constant:len(constants)->u16": ("witness", "`len([1, 1, … 65536 literals])` panics `assertion failed: self.constants.len() <= u16::MAX` (findings/cast_witnesses.py constants)"),
+    "add_ffi_call_args:len(ffi_call_args)->u16": ("witness", "`let x = 1` then 65536 lines `sin(x)` panics `assertion failed: self.ffi_call_args.len() <= u16::MAX` (findings/cast_witnesses.py fficallargs)"),
+    "add_string:len(strings)->u16": ("witness", "`let x = 1` then 65537 lines `type(x)` panics `assertion failed: self.strings.len() <= u16::MAX` (findings/cast_witnesses.py addstring)"),
+    "compile_expression:JoinString:len(expr)->u16": ("bounded", _A),
+    "compile_expression:FFICallFunction:len(args)->u16": ("bounded", "the type checker rejects a call whose argument count differs from the declared parameter count (WrongArity), and Vm::add_foreign_function asserts the declared count equals the registry arity (at most 4)"),
+    "compile_statement:FFICallProcedure:len(args)->u16": ("bounded", "elaborate_statement rejects procedure calls whose argument count is outside procedure.arity (at most 3)"),
+    "add_prefix:index_in(prefixes)->u16": ("bounded", "prefixes are de-duplicated by value and only come from the 34 rows of PrefixParser::prefixes()"),
+    "add_prefix:len(prefixes)->u16": ("bounded", "prefixes are de-duplicated by value and only come from the 34 rows of PrefixParser::prefixes()"),
+    "add_unit_information:index_in(unit_information)->u16": ("bounded", "an index into unit_information, whose length is kept <= u16::MAX by the assert on the push path of the same function"),
+    "add_unit_information:len(unit_information)->u16": ("bounded", "every derived-unit definition first calls Vm::add_constant (dummy unit constant), whose assert fires at the same count (see CAST:add_constant)"),
+    "get_ffi_callable_idx:index_in(ffi_callables)->u16": ("bounded", "ffi_callables only holds entries of the fixed registries ffi::functions() (62) and ffi::procedures() (3)"),
+}
+
+EXPAR_DISPOSITIONS = {
+    "<unit::UnitFactor as arithmetic::Power>::power:mul": ("witness", "`((m/cm)^1e30)^1e30` panics `attempt to multiply with overflow` in UnitFactor::power (the property's own example)"),
+    "power:mul": ("witness", "`fn f(x) = x^(2^126) * x^(2^126)` panics `attempt to multiply with overflow` in DType::power via ApplySubstitution (the property's own example)"),
+    "elaborate_expression:neg": ("witness", "`fn ff(x) = x^(-(2^126) - 2^126)` panics `attempt to negate with overflow` in TypeChecker::elaborate_expression (the const exponent is i128::MIN)"),
+    "dimension_exponent:neg": ("bounded", "the operand is parsed from a non-negative decimal literal with str::parse::<i128>, so it is never i128::MIN and negation cannot overflow"),
+}
+
+
+def cast_rule(ctx):
+    return rule_cast(ctx.lib, ["numbat/src/bytecode_interpreter.rs", "numbat/src/vm.rs"], CAST_DISPOSITIONS)
+
+
+def expar_rule(ctx):
+    return rule_expar(ctx.lib, dispositions=EXPAR_DISPOSITIONS, min_sites=18)
+
+
+PROPERTIES["C08"]["rules"] += [("CAST", cast_rule), ("EXPAR", expar_rule)]
+PROPERTIES["C08"]["explanation"] += " (CAST) every narrowing integer cast in the bytecode emitter/VM tables is classified from MIR: exact (masked), bounded (exempt row with the bound argument), guarded only by an assert! (an input-reachable panic) or unguarded (silent truncation) — the property's 65536-`!` example is one instance. (EXPAR) every unchecked operator on Ratio<i128> exponents reachable from interpret_with_settings is listed per call site; sites with a confirmed failing input are findings, sites with a bound argument are exempt, the rest are reported as unresolved advisories (not decided)."
 
 NOT_APPLICABLE = {
     "C03": "numerical agreement of conversion factors over 500 units is a statement about run-time values; no structural clause is a necessary condition that is not already covered under C04/C11/C12 (static analysis cannot bound the arithmetic)",
